@@ -128,7 +128,7 @@ def run(prog, ctx):
             t[2][3] == ("a", ("n", "self"), "modified_basis") and t[3] == ()
         why = "forwards %s" % show(t)
     used = {n.id for n in ast.walk(cq.node) if isinstance(n, ast.Name) and isinstance(n.ctx, ast.Load)}
-    if "grid_levels_1D" in used:
+    if len(cq.params) > 5 and cq.params[5] in used:
         ok = False
         why = "the level array takes part in the weight computation"
     ctx.check(ok, "C09.D2", R.key_of(cq, "forwards-points-only"), cq.loc(),
@@ -143,6 +143,9 @@ def run(prog, ctx):
         if isinstance(n, ast.Name) and isinstance(n.ctx, ast.Load) and n.id not in local:
             if hasattr(builtins, n.id) or n.id in ("np", "math"):
                 continue
+            r_ = prog.resolve_name(cw.module.name, n.id)
+            if r_ is not None and r_[0] in ("func", "class", "module", "external"):
+                continue                  # functions / classes / imported modules are program constants, not state
             bad.append(n.id)
         if isinstance(n, ast.Attribute) and isinstance(n.value, ast.Name) and n.value.id in ("self", "cls"):
             bad.append("self." + n.attr)
